@@ -203,7 +203,7 @@ func TestExhaustiveWorkPanics(t *testing.T) {
 		}
 	}
 	stats.CaseN(n, n, "exhaustive_work_kind_x_value_x_position")
-	stats.Exhaustive("execution kind (12 work kinds) x panic value (10: nil, error, string, runtime index, nil deref, struct, custom error type, context.Canceled, wrapped context.Canceled, typed nil error pointer) x position (alone, first, last among healthy items)")
+	stats.Exhaustive("execution kind (12 work kinds) x panic value (13: nil, error, string, runtime index, nil deref, struct, custom error type, context.Canceled, wrapped context.Canceled, typed nil error pointer, slice, map, struct holding a slice) x position (alone, first, last among healthy items)")
 }
 
 // TestExhaustiveLifecyclePanics enumerates phase x panic value for a module inside a small graph.
@@ -240,7 +240,7 @@ func TestExhaustiveLifecyclePanics(t *testing.T) {
 		}
 	}
 	stats.CaseN(n, n, "exhaustive_lifecycle_phase_x_value_x_module")
-	stats.Exhaustive("lifecycle routine (prep,start,stop) x panic value (10: nil, error, string, runtime index, nil deref, struct, custom error type, context.Canceled, wrapped context.Canceled, typed nil error pointer) x position in a 3-module chain")
+	stats.Exhaustive("lifecycle routine (prep,start,stop) x panic value (13: nil, error, string, runtime index, nil deref, struct, custom error type, context.Canceled, wrapped context.Canceled, typed nil error pointer, slice, map, struct holding a slice) x position in a 3-module chain")
 }
 
 func TestPropWorkPanics(t *testing.T) {
@@ -276,13 +276,27 @@ func TestPropWorkPanics(t *testing.T) {
 				last.Work = append(last.Work, modsim.Work{ID: 101, Kind: k2, Mode: "finish", HoldUS: 500, Panic: rapid.SampledFrom(modsim.PanicKinds).Draw(t, "panic2")})
 			}
 		}
+		// the same item panics again in its next run(s): the restarted service worker, the task or hook that runs again
+		runs := 1
+		if mode == "finish" && (kind == "service" || kind == "task" || kind == "schedtask" || kind == "hook") {
+			runs = rapid.SampledFrom([]int{1, 1, 2, 3}).Draw(t, "panicking_runs")
+			if runs > 1 {
+				last := &sc.Modules[len(sc.Modules)-1]
+				for i := range last.Work {
+					if last.Work[i].ID == 100 {
+						last.Work[i].PanicRuns = runs
+					}
+				}
+				stats.Class("item_panics_again_in_its_next_run")
+			}
+		}
 		sc.Delays = modsim.GenDelays(t, sc.Modules, 2)
 		if rapid.IntRange(0, 4).Draw(t, "noreports") == 0 {
 			// nobody listens for reports (no channel, stderr off): everything else stays as it is
 			sc.NoReports = true
 			stats.Class("no_report_channel_installed")
 		}
-		if kind == "service" && mode == "finish" && rapid.Bool().Draw(t, "slowbackoff") {
+		if kind == "service" && mode == "finish" && runs == 1 && rapid.Bool().Draw(t, "slowbackoff") {
 			// the panicked service worker sits in a long restart back-off when the module is stopped: "the module can still
 			// be stopped" (promptly, CheckC05); it is not run again before that, so the restart clause does not apply
 			last := &sc.Modules[len(sc.Modules)-1]
